@@ -445,4 +445,5 @@ def check(ctx):
     r8_every_valid_guard_is_checked_for_overlap(ctx)
 
 
-CLAUSE += ' Also: the domain guard is handed from Blueprint::domain to the schema as given.'CLAUSE += ' Also: the compile-time conflict check inserts the domain patterns in the order in which the generated router inserts them.'
+CLAUSE += ' Also: the domain guard is handed from Blueprint::domain to the schema as given.'
+CLAUSE += ' Also: the compile-time conflict check inserts the domain patterns in the order in which the generated router inserts them.'
